@@ -12,6 +12,12 @@ def specs_for(rng, n):
     for kind in ("log", "lin", "cub"):
         for a in (1e-6, 1e-3, 0.01, 0.02, 0.1, 0.5, 0.9, 0.99):
             out.append("%s:a:%s" % (kind, f2h(a)))
+    # decoder-built mappings with "nice" bases and offsets: bin edges fall exactly on powers of two (exact integer arguments of
+    # the inverse log-like functions), which accuracy-built mappings never produce
+    for kind in ("log", "lin", "cub"):
+        for g in (2.0, 4.0, 1.4142135623730951, 1.189207115002721, 16.0):
+            for off in (0.0, 3.0, -2.0, 0.5, 1.0 / math.log2(g), 1.0):
+                out.append("%s:g:%s:%s" % (kind, f2h(g), f2h(off)))
     while len(out) < n:
         s, a = mapspec(rng); out.append(s)
         if rng.random() < 0.5:
@@ -27,7 +33,7 @@ def run(tier, seed):
         rep.violation("build", {"what": "vrun does not build against /repo", "log": log[-3000:]}, found_input=False)
         core.proof_section(rep, pid); return rep.finish()
     core.proof_section(rep, pid, trusted_extra=["theorems are about the ideal (real-arithmetic) mappings; their float64 evaluation through Go's math.Log/Exp/Exp2/Log2/Pow/Cbrt is validated by this run's exact-rational oracle, not proved"])
-    specs = specs_for(rng, 60 if tier == "quick" else 400)
+    specs = specs_for(rng, 150 if tier == "quick" else 600)
     facts = sketchcheck.learn_specs(pid, specs)
     npts = 150 if tier == "quick" else 1500
     # phase A: indexes of the probe values
